@@ -297,12 +297,9 @@ impl FromStr for Pinned {
         // - `tag=<tag-name>#<commit-hash>`
         // - `rev#<commit-hash>`
         // - `default#<commit-hash>`
-        let mut s_iter = s.split('#');
-        let reference = s_iter.next().ok_or(PinnedParseError::Reference)?;
-        let commit_hash = s_iter
-            .next()
-            .ok_or(PinnedParseError::CommitHash)?
-            .to_string();
+        // Note: branch and tag names may contain `#`, a commit hash never does.
+        let (reference, commit_hash) = s.rsplit_once('#').ok_or(PinnedParseError::CommitHash)?;
+        let commit_hash = commit_hash.to_string();
         validate_git_commit_hash(&commit_hash).map_err(|_| PinnedParseError::CommitHash)?;
 
         const BRANCH: &str = "branch=";
